@@ -20,7 +20,13 @@ import (
 	"verifharness/sim"
 )
 
-func sdkInt(b *big.Int) sdk.Int { return sdk.NewIntFromBigInt(new(big.Int).Set(b)) }
+// sdkInt: an sdk.Int holds 256 bits; a larger generated value stands for the largest one a message or event can carry
+func sdkInt(b *big.Int) sdk.Int {
+	if b.BitLen() > 256 {
+		return sdk.NewIntFromBigInt(new(big.Int).Sub(new(big.Int).Lsh(big.NewInt(1), 256), big.NewInt(1)))
+	}
+	return sdk.NewIntFromBigInt(new(big.Int).Set(b))
+}
 
 func bigOf(s string) *big.Int {
 	if s == "" {
@@ -122,6 +128,7 @@ type Interp struct {
 	// Lenient: failures of checkers that belong to another property do not end the history (Foreign names the first)
 	Lenient bool
 	Foreign string
+	Born    map[string]int64 // chain|id -> block time at which the transfer was first seen
 	fprop   string
 	f       *pbt.Failure
 	Accts   map[string]sdk.AccAddress
@@ -156,6 +163,15 @@ func (it *Interp) Fail(prop, key, format string, a ...interface{}) {
 }
 
 func (it *Interp) Failed() bool { return it.fprop != "" }
+
+// ReportedStatus is what a user is told about a transaction: the answer of the TransactionStatus query.
+func (it *Interp) ReportedStatus(txHash string) mtypes.TxStatusType {
+	r, err := it.H.K.TransactionStatus(sdk.WrapSDKContext(it.H.Ctx()), &mtypes.TransactionStatusRequest{TxHash: txHash})
+	if err != nil || r == nil || r.Status == nil {
+		return mtypes.TxStatusType(-1)
+	}
+	return r.Status.Status
+}
 
 // Result applies first-divergence attribution (see props/common_test.go).
 func (it *Interp) Result() *pbt.Failure {
@@ -284,7 +300,34 @@ func (it *Interp) learn(s *Snap) {
 				w.KnownSS[ss.Nonce] = ss
 			}
 		}
+		// when was a transfer first seen? (the model's own clock for the expiry rule, independent of the stored CreatedAt)
+		if it.Born == nil {
+			it.Born = map[string]int64{}
+		}
+		see := func(e *mtypes.SendToExternal) {
+			k := fmt.Sprintf("%s|%d", ch, e.Id)
+			if _, ok := it.Born[k]; !ok {
+				it.Born[k] = it.Now
+			}
+		}
+		for _, e := range s.Chains[ch].Pool {
+			see(e)
+		}
+		for _, b := range s.Chains[ch].Batches {
+			for _, e := range b.Transactions {
+				see(e)
+			}
+		}
 	}
+}
+
+// ExpiredByModel: has the outgoing-transfer timeout passed since the transfer was first seen?
+func (it *Interp) ExpiredByModel(ch string, e *mtypes.SendToExternal) bool {
+	born, ok := it.Born[fmt.Sprintf("%s|%d", ch, e.Id)]
+	if !ok {
+		born = int64(e.CreatedAt)
+	}
+	return time.Unix(born, 0).Add(it.timeout()).Before(time.Unix(it.Now, 0))
 }
 
 func HubHex(a sdk.AccAddress) string { return "0x" + hex.EncodeToString(a) }
@@ -886,6 +929,33 @@ func (it *Interp) step(i int, op *Op) {
 		}
 		paid := []string{"1", op.F, new(big.Int).Mul(fee, big.NewInt(1000)).String()}[op.U%3]
 		for _, o := range []Op{{K: "block", T: op.T}, {K: "reqbatch", C: dst, D: op.D}, {K: "block", T: op.T}, {K: "exec", C: dst, A: paid}, {K: "block", T: op.T}} {
+			if it.Failed() {
+				break
+			}
+			o := o
+			it.step(i, &o)
+		}
+
+	case "xwhale":
+		// macro: values at the top of the 256-bit range meet the sums the blockers compute.
+		// variant 0: two bursts of sends whose fees, in the token's external units, add up to more than 2^256 while a
+		// batch of the token is outstanding; variant 1: a deposit of ~2^255, almost all of it sent out again and left
+		// to expire, while a second deposit of ~2^255 arrives (the refund would lift the supply over 2^256)
+		top := new(big.Int).Lsh(big.NewInt(1), 255)
+		var seq []Op
+		if op.N%2 == 0 {
+			fee := new(big.Int).Lsh(big.NewInt(1), uint(225+op.R%12)).String()
+			seq = []Op{{K: "burst", U: op.U, C: op.C, D: op.D, N: 30, A: "100", F: fee}, {K: "block", T: 5}, {K: "block", T: 5},
+				{K: "burst", U: op.U + 1, C: op.C, D: op.D, N: 66, A: "100", F: fee}, {K: "block", T: 5}, {K: "block", T: 5}}
+		} else {
+			seq = []Op{{K: "deposit", U: op.U, C: op.C, D: op.D, A: top.String()}, {K: "block", T: 1}}
+			if (it.Height+1)%2 == 1 { // the send must land in an even block: the odd block after it builds no batch
+				seq = append(seq, Op{K: "block", T: 1})
+			}
+			seq = append(seq, Op{K: "send", U: op.U, C: op.C, D: op.D, A: new(big.Int).Sub(top, big.NewInt(1000+int64(op.R))).String(), F: "0", R: op.R},
+				Op{K: "block", T: op.T}, Op{K: "deposit", U: op.U + 1, C: op.C, D: op.D, A: top.String()}, Op{K: "block", T: 1}, Op{K: "block", T: 5})
+		}
+		for _, o := range seq {
 			if it.Failed() {
 				break
 			}
